@@ -208,6 +208,7 @@ pub fn gen(prop: &str, seed: u64) -> Plan {
         "C09" => gen_c09(seed),
         "C08" => gen_c08(seed),
         "C10" => gen_c10(seed),
+        "C07" => gen_c07(seed),
         "C01" => gen_byz(seed, "C01"),
         "C02" => gen_byz(seed, "C02"),
         "C06" => gen_byz(seed, "C06"),
@@ -639,4 +640,46 @@ fn gen_byz(seed: u64, prop: &str) -> Plan {
         b.plan.flags.push("index".into());
     }
     finish(b, until, 500_000)
+}
+
+/// Check-point vectors from honest and deviating peers, in every delivery / tick order.
+fn gen_c07(seed: u64) -> Plan {
+    let mut b = base("C07", seed, 220, 5);
+    b.plan.knobs.check_point_interval = pick(&mut b.rng, &[4u64, 8, 16]);
+    let np = b.plan.peers.len();
+    b.plan.knobs.max_outbound = b.rng.range(1, 7) as u32;
+    b.plan.initial_blocks = b.plan.initial_blocks.max(b.plan.knobs.check_point_interval * b.rng.range(4, 12));
+    for p in 0..np {
+        b.plan.peers[p].check_points_batch = pick(&mut b.rng, &[2u64, 2, 3, 5, 2000]);
+        if b.rng.chance(1, 3) {
+            // a deviating vector from some block on
+            b.plan.peers[p].lie_from = b.rng.range(1, b.plan.initial_blocks);
+            b.plan.peers[p].lie_salt = b.rng.next_u64() | 1;
+            b.plan.peers[p].identity = 700 + p as u64;
+        }
+    }
+    // peers connect at very different times
+    for p in 0..np {
+        let at = if b.rng.chance(1, 2) { b.rng.range(0, 3_000) } else { b.rng.range(3_000, 150_000) };
+        add(&mut b.plan, at, Action::Connect { peer: p });
+    }
+    let until = b.rng.range(60_000, 250_000);
+    growth(&mut b, until);
+    // churn
+    for _ in 0..b.rng.range(0, 6) {
+        let at = b.rng.range(5_000, until);
+        let peer = b.rng.usize_below(np);
+        add(&mut b.plan, at, Action::Disconnect { peer });
+        add(&mut b.plan, at + b.rng.range(500, 40_000), Action::Connect { peer });
+    }
+    if b.rng.chance(1, 3) {
+        add(&mut b.plan, b.rng.range(20_000, until), Action::Restart);
+    }
+    if b.rng.chance(1, 2) {
+        let tip = b.plan.initial_blocks;
+        let scripts = random_scripts(&mut b, 2, tip);
+        add(&mut b.plan, b.rng.range(0, 20_000), Action::User(UserOp::SetScripts { cmd: SetCmd::All, scripts }));
+    }
+    b.plan.flags = vec!["byz".into(), "checkpoints".into()];
+    finish(b, until, 120_000)
 }
